@@ -34,6 +34,11 @@ def classify(c):
         # id take-over on a path-id side (b removed, a renamed onto b) while the peer deletes/edits b: the ousted entry keeps
         # sitting in the pending set with no id on either side / without any change flag
         return "G18-id-take-over-leaves-ghost-entry-in-pending-set"
+    if c["property"] == "C01" and job.get("cfg") == "pp" and kind == "diverge" and \
+            all(any(op[0] == "rename" and op[1] == "a" for op in sc) for sc in (job.get("scripts") or [[], []])):
+        # both accounts path-addressed: each side's rename of the same file arrives as delete + create; together with an
+        # edit on one side the engine re-creates the old name on one side and keeps both new names, the trees differ for good
+        return "G20-double-rename-plus-edit-on-two-path-id-accounts"
     if kind == "midstep-lost" and job.get("mid"):
         # check-then-act: the engine has read one side (hash/refresh/download) and is about to upload to the other when the
         # peer's user writes that file; the upload overwrites the peer's new bytes without a conflict being noticed
@@ -137,6 +142,11 @@ def classify(c):
             return "G2-same-target-name"
     if folder_renames:
         return "G1-folder-rename-vs-child"
+    if job.get("cfg") in ("po", "pci", "pp", "op") and "S S S S S S" in " ".join(map(str, c.get("hist") or [])) and \
+            any(op[0] in ("rename", "delete") for _, op in ops):
+        # downstream of the same revive: six or more sync steps pass before the path-id side's rename/delete event is taken
+        # in, the engine re-creates the vanished file, and the later operations of the history collide with the revived copy
+        return "G3-missing-revive-origin-write"
     if kind == "origin-written" and job["cfg"] in ("po", "pci", "pp", "op"):
         # path-id side: change seen, object gone before sync, delete event not yet taken in -> after 5 punts the
         # engine re-creates the peer copy on the origin side (manager.handle_changed_is_missing)
